@@ -40,6 +40,9 @@ def eval_clause(clause, env, old_env):
 
 
 def _materialise(v):
+    if isinstance(v, dict) and "__record__" in v:
+        cls = _resolve(v["__record__"])
+        return cls(**{k: _materialise(x) for k, x in v.items() if k != "__record__"})
     if isinstance(v, dict) and "__kwargs__" in v:
         return v
     if isinstance(v, dict) and "__obj__" in v:
@@ -73,6 +76,15 @@ def _seed_pool(obj):
 
 
 def run(key, args, kind, clause, raises, ensures, RAISED=None, CUSTOM=None):
+    try:
+        return _run(key, args, kind, clause, raises, ensures, RAISED, CUSTOM)
+    except BaseException:  # a replay that cannot be carried out is not a reproduction
+        traceback.print_exc()
+        print("REPLAY-ERROR")
+        return 3
+
+
+def _run(key, args, kind, clause, raises, ensures, RAISED=None, CUSTOM=None):
     if CUSTOM:
         mod = importlib.import_module(CUSTOM)
         return mod.run(key, args, kind, clause, raises, ensures, RAISED)
